@@ -612,7 +612,7 @@ func init() {
 		ID:        "C09",
 		Level:     "exploration",
 		NeedsTerm: true,
-		Rule: "9 history shapes (empty, one entry, all duplicates, prefix chains, multi-line, mixed case, regexp metacharacters, Unicode) x in-progress texts x: (nav) walks of 1-14 previous/next/beginning/end-of-history and up/down-line-or-history steps, compared at every wait with a reference position model incl. both ends and restoration of the in-progress text; (prefix/substring) 1-8 history-search-* / history-substring-search-* steps with the cursor optionally moved back: buffer in {text} U {entries with that prefix / containing it}; (isearch) C-r/C-s + pattern (literal, metacharacters, invalid regexps) + repeats, left by ESC / RET / C-g: buffer in {text} U {entries matching as case-insensitive regexp or literal substring}, C-g restores the text; plus source contents unchanged. " +
+		Rule: "Vi searches in one case in seven (text typed, ESC, ?text RET or k k /text RET, then 0-6 n / N: after each the buffer is the in-progress text or an entry the text matches); otherwise: 10 history shapes (empty, one entry, all duplicates, prefix chains, multi-line, mixed case, regexp metacharacters, Unicode) x in-progress texts x: (nav) walks of 1-14 previous/next/beginning/end-of-history and up/down-line-or-history steps, compared at every wait with a reference position model incl. both ends and restoration of the in-progress text; (prefix/substring) 1-8 history-search-* / history-substring-search-* steps with the cursor optionally moved back: buffer in {text} U {entries with that prefix / containing it}; (isearch) C-r/C-s + pattern (literal, metacharacters, invalid regexps) + repeats, left by ESC / RET / C-g: buffer in {text} U {entries matching as case-insensitive regexp or literal substring}, C-g restores the text; plus source contents unchanged. " +
 			"distinct non-trivial = distinct (kind, operation, history size class, position / key length / pattern class) tuples",
 		Assumptions: []string{"Emacs mode; the four *-of-history and four search commands are bound by name to C-x prefixed probe keys", "a command failure (panic, hang) in these workloads is a violation of this property ('none of these commands fails at either end')"},
 		N: func(tier string) int {
